@@ -8,6 +8,8 @@ CONSTANTS
   MaxData = 3
   PoolN = 4
   Depth3 = FALSE
+  M_ShiftOnce = TRUE
+  PartsOn = {}
   D_FoldWidth = FALSE
   D_ContainerNul = FALSE
   D_EmptyContainerLen = FALSE
